@@ -50,12 +50,13 @@ class _BatchSpy:
     def __call__(self, X, affinity_matrix=None, random_state=None):
         rec = self._rec
         first = True
-        pool = None
+        pool, dupkeys = None, set()
         if rec.ids_mode == "match":
             # sample identity by matching batch rows with the rows of the full array (duplicates: any unused equal row)
             pool = {}
             for i, row in enumerate(np.asarray(X)):
                 pool.setdefault(np.ascontiguousarray(row).tobytes(), []).append(i)
+            dupkeys = {k for k, v in pool.items() if len(v) > 1}
             pool = {k: v[::-1] for k, v in pool.items()}
         for xb, ab in self._inner(X, affinity_matrix, random_state):
             if first:
@@ -75,8 +76,12 @@ class _BatchSpy:
                     ev["blockint"] = True
                     ev["block"] = ab_.astype(np.int64).tolist()
                 if rec.full_affinity is not None and 0 <= min(ids) and max(ids) < rec.n:
-                    ev["blockok"] = bool(ab_.shape == (len(ids), len(ids)) and
-                                         np.array_equal(ab_, rec.full_affinity[np.ix_(ids, ids)]))
+                    ref = rec.full_affinity[np.ix_(ids, ids)]
+                    ok = bool(ab_.shape == (len(ids), len(ids)) and np.array_equal(ab_, ref))
+                    if not ok and pool is not None and ab_.shape == ref.shape and bool(dupkeys):
+                        # duplicated rows: the matching picks *an* equal row, whose affinity row can differ in the last bit
+                        ok = bool(np.allclose(ab_, ref, rtol=1e-10, atol=1e-12))
+                    ev["blockok"] = ok
             if rec.decorated:
                 ev["rec"] = [int(v) for v in getattr(self._inner, "indices", [])]
                 # with duplicated rows the matching above is ambiguous: if the recorded indices do select exactly the rows of
